@@ -415,8 +415,12 @@ package crypto
 // has replaced the share by the published answer; after the shares timeout a share was received or complained about
 //@ pred ownAnswered(s) = ownComplaint(s) && s.complaints[s.myIndex].answerReceived
 //@ pred shareInv(s) = (s.vAReceived && !s.disqualified && ownAnswered(s) ==> shareOK(s)) && (!s.disqualified && ownAnswered(s) ==> s.x == s.complaints[s.myIndex].answer) && (s.vAReceived && !s.disqualified && !ownComplaint(s) && s.xReceived ==> shareOK(s)) && (s.sharesTimeout && !s.disqualified && !ownComplaint(s) ==> s.xReceived)
+// every complaint that was both received and answered has an answer matching the complainer's public share, as soon as the
+// vector is known (otherwise the dealer is disqualified): whatever the order in which complaint, answer and vector arrive
+//@ pred answerOK(s, k) = e2Eq(g2mulgen(s.complaints[k].answer), s.y[k])
+//@ pred answersOK(s) = s.vAReceived && !s.disqualified && s.myIndex != s.dealerIndex ==> forall(k, 0, 256, has(s.complaints, k) && s.complaints[k].received && s.complaints[k].answerReceived ==> answerOK(s, k))
 //@ pred qualInv0(s) = qualShape(s) && complaintsOK(s) && qualPhase(s)
-//@ pred qualInv(s) = qualInv0(s) && shareInv(s)
+//@ pred qualInv(s) = qualInv0(s) && shareInv(s) && answersOK(s)
 // what a message handler may never touch: the phase of the instance
 //@ pred phaseKept(s) = unchanged(s.running) && unchanged(s.sharesTimeout) && unchanged(s.complaintsTimeout) && unchanged(s.feldmanVSSstate) && unchanged(s.dkgCommon) && unchanged(s.dealerIndex) && unchanged(s.size) && unchanged(s.threshold) && unchanged(s.myIndex) && unchanged(s.processor) && (old(s.disqualified) ==> s.disqualified)
 
@@ -505,6 +509,7 @@ package crypto
 //@ ensures [inv-complaints] complaintsOK(s)
 //@ ensures [inv-phase] qualPhase(s)
 //@ ensures [inv-share] shareInv(s)
+//@ ensures [inv-answers] answersOK(s)
 //@ ensures [inv-kept] phaseKept(s)
 
 //@ func (*feldmanVSSQualState).receiveVerifVector mode int props C08 C07 C09
@@ -516,6 +521,7 @@ package crypto
 //@ loop 1 invariant qualInv0(s) && phaseKept(s) && !s.disqualified && s.vAReceived && len(s.vA) == s.threshold+1 && len(s.y) == s.size
 //@ loop 1 invariant [own-answer-is-the-share] (ownAnswered(s) ==> s.x == s.complaints[s.myIndex].answer) && (s.sharesTimeout && !ownComplaint(s) ==> s.xReceived)
 //@ loop 1 invariant [own-answer-checked-once-visited] visited(s.myIndex) && ownAnswered(s) ==> shareOK(s)
+//@ loop 1 invariant [answers-checked-once-visited] forall(k, 0, 256, visited(k) && has(s.complaints, k) && s.complaints[k].received && s.complaints[k].answerReceived ==> answerOK(s, k))
 
 // (called in the middle of a handler, before the share bookkeeping is consistent again: only the structural invariant is needed)
 //@ func (*feldmanVSSQualState).buildAndBroadcastComplaint mode int props C07 C08 C09
@@ -1429,6 +1435,7 @@ package crypto
 //@ assigns nothing
 //@ ensures result0 != nil && fresh(result0) && result1 != nil && fresh(result1) && len(result2) == s.size && fresh(result2)
 
+//@ pred noUnanswered(q) = forall(k, 0, 256, has(q.complaints, k) ==> !(q.complaints[k].received && !q.complaints[k].answerReceived))
 //@ pred jfKept(s) = unchanged(s.dkgCommon) && unchanged(s.fvss) && unchanged(s.size) && unchanged(s.threshold) && unchanged(s.myIndex) && unchanged(s.processor) && unchanged(s.running) && forall(j, 0, s.size, unchanged(s.fvss[j].complaints) && unchanged(s.fvss[j].sharesTimeout) && unchanged(s.fvss[j].complaintsTimeout) && unchanged(s.fvss[j].feldmanVSSstate) && (old(s.fvss[j].disqualified) ==> s.fvss[j].disqualified))
 //@ func (*JointFeldmanState).End mode int props C10 C09
 //@ requires jfInv(s)
@@ -1438,14 +1445,18 @@ package crypto
 //@ ensures [ends] old(s.jointRunning) && old(s.fvss[0].sharesTimeout) && old(s.fvss[0].complaintsTimeout) ==> !s.jointRunning
 //@ ensures [class] old(s.jointRunning) && old(s.fvss[0].sharesTimeout) && old(s.fvss[0].complaintsTimeout) && result3 != nil ==> iserr(result3, *dkgFailureError) && result0 == nil && result1 == nil && len(result2) == 0
 //@ ensures [keys] result3 == nil ==> result0 != nil && result1 != nil && len(result2) == s.size
+//@ ensures [unanswered-complaint-disqualifies] old(s.jointRunning) && old(s.fvss[0].sharesTimeout) && old(s.fvss[0].complaintsTimeout) ==> forall(j, 0, s.size, !s.fvss[j].disqualified ==> noUnanswered(&s.fvss[j]))
 //@ ensures [kept] jfKept(s)
 //@ loop 1 invariant [range] 0 <= i && i <= s.size && 0 <= disqualifiedTotal && disqualifiedTotal <= i && s.jointRunning && old(s.jointRunning)
 //@ loop 1 invariant [kept] jfKept(s) && jfShape(s) && forall(j, 0, s.size, complaintsOK(&s.fvss[j]))
 //@ loop 1 invariant [pristine] i == 0 ==> nothingAssigned()
 //@ loop 1 invariant [timeouts-were-set] i > 0 ==> old(s.fvss[0].sharesTimeout) && old(s.fvss[0].complaintsTimeout)
+//@ loop 1 invariant [unanswered-complaints-disqualify] forall(j, 0, i, !s.fvss[j].disqualified ==> noUnanswered(&s.fvss[j]))
 //@ loop 1 assigns s.fvss[:], ghost(s.processor)
 //@ loop 2 invariant [range] 0 <= i && i < s.size && 0 <= disqualifiedTotal && disqualifiedTotal <= i && s.jointRunning && old(s.jointRunning) && !s.fvss[i].disqualified
 //@ loop 2 invariant [kept] jfKept(s) && jfShape(s) && forall(j, 0, s.size, complaintsOK(&s.fvss[j]))
+//@ loop 2 invariant [unanswered-complaints-disqualify] forall(j, 0, i, !s.fvss[j].disqualified ==> noUnanswered(&s.fvss[j]))
+//@ loop 2 invariant [no-unanswered-so-far] forall(k, 0, 256, visited(k) ==> !(s.fvss[i].complaints[k].received && !s.fvss[i].complaints[k].answerReceived))
 //@ loop 2 invariant [timeouts-were-set] old(s.fvss[0].sharesTimeout) && old(s.fvss[0].complaintsTimeout) && s.fvss[i].sharesTimeout && s.fvss[i].complaintsTimeout
 //@ loop 2 assigns nothing
 //@ loop 3 invariant len(y) == s.size && len(jointy) == s.size && fresh(y) && !s.jointRunning && jfKept(s)
